@@ -5,6 +5,9 @@ Extracts, with `ast` only (nothing imported from mako):
   * the default `default_filters` that `Template.__init__` installs when the argument is None
     (`self.default_filters = ["str"]`)            -> `templateDefaultFilters : List (List Char)`
   * the default of the `buffer_filters` parameter -> `templateBufferFilters`
+  * the regex literals `create_filter_callable` matches filter entries with (mako/codegen.py): the decode regex
+    must be `decode\\..+`, the call regex `(.+?)(\\(.*\\))` with or without a final `$`
+                                                  -> `callRegexAnchored : Bool`
   * the white-space code points of the running interpreter (`str.strip()` without argument, used by
     `match_expression` on the escapes)            -> `pyWhitespace : List Nat`
 into lean/MakoModel/Generated/Pipeline.lean.
@@ -88,13 +91,36 @@ def gen(repo) -> str:
             raise RegenError("%s: cannot find `if default_filters is None: self.default_filters = [...]`" % rel)
     buffer_filters = str_list(defaults["buffer_filters"], "buffer_filters parameter default")
 
+    # --- the two regexes of create_filter_callable ---------------------------------------------------
+    rel = "mako/codegen.py"
+    tree = parse(repo, rel)
+    cfc = None
+    for node in ast.walk(tree):
+        if isinstance(node, ast.FunctionDef) and node.name == "create_filter_callable":
+            cfc = node
+    if cfc is None:
+        raise RegenError("%s: no create_filter_callable" % rel)
+    lits = []
+    for node in ast.walk(cfc):
+        if (isinstance(node, ast.Call) and isinstance(node.func, ast.Attribute) and node.func.attr == "match"
+                and isinstance(node.func.value, ast.Name) and node.func.value.id == "re" and node.args):
+            if len(node.args) != 2 or node.keywords:
+                raise RegenError("%s: create_filter_callable calls re.match with flags" % rel)
+            lits.append(const(node.args[0], str, "re.match pattern in create_filter_callable"))
+    CALL_RX = {r"(.+?)(\(.*\))": False, r"(.+?)(\(.*\))$": True}
+    call_rx = [l for l in lits if l in CALL_RX]
+    if sorted(lits) != sorted([r"decode\..+"] + call_rx) or len(call_rx) != 1:
+        raise RegenError("%s: create_filter_callable matches %r; the model knows `decode\\..+` and "
+                         "`(.+?)(\\(.*\\))` with or without a final `$`" % (rel, lits))
+    anchored = CALL_RX[call_rx[0]]
+
     ws = [c for c in range(sys.maxunicode + 1) if not (0xD800 <= c <= 0xDFFF) and chr(c).isspace()]
     # str.strip() strips exactly the characters for which str.isspace() holds
     probe = "".join(chr(c) for c in ws)
     if probe.strip() != "":
         raise RegenError("str.strip() and str.isspace() disagree in this interpreter")
 
-    out = [HEADER % "mako/filters.py (DEFAULT_ESCAPES), mako/template.py (Template.__init__), the running interpreter (str.isspace)"]
+    out = [HEADER % "mako/filters.py (DEFAULT_ESCAPES), mako/template.py (Template.__init__), mako/codegen.py (create_filter_callable regexes), the running interpreter (str.isspace)"]
     out.append("namespace MakoModel.Generated.Pipeline\n\n")
     out.append("/-- `mako.filters.DEFAULT_ESCAPES`: filter flag -> callee text emitted by the code generator -/\n")
     out.append("def defaultEscapes : List (List Char × List Char) :=\n  [ ")
@@ -106,5 +132,7 @@ def gen(repo) -> str:
     out.append("def templateBufferFilters : List (List Char) := [%s]\n\n" % ", ".join(lstr(s) for s in buffer_filters))
     out.append("/-- code points `c` with `chr(c).isspace()` (= what `str.strip()` removes) in the interpreter the model is validated against -/\n")
     out.append("def pyWhitespace : List Nat := [%s]\n\n" % ", ".join(str(c) for c in ws))
+    out.append("/-- `create_filter_callable`: the call regex is %s - whether it ends with `$` -/\n" % call_rx[0])
+    out.append("def callRegexAnchored : Bool := %s\n\n" % ("true" if anchored else "false"))
     out.append("end MakoModel.Generated.Pipeline\n")
     return "".join(out)
